@@ -123,7 +123,11 @@ SPK(s, fl) == LET K == MkK("SP", SPdef(s), <<>>, <<>>, 100, 3, "b", <<>>) IN IF 
 RPK(r, fl) == IF RPdef(r).atoms = <<>>
               THEN [MkK("RP", <<>>, <<>>, <<>>, 200, 5, "b", <<>>) EXCEPT !.tel = <<>>, !.tmass = <<>>, !.tlab = <<>>]   \* Atoms()
               ELSE LET K == MkK("RP", RPdef(r).atoms, RPdef(r).bonds, RPdef(r).angles, 200, 5, IF fl \in {"m", "d"} THEN "p" ELSE fl, <<>>)
-                   IN IF fl = "d" THEN Double(K, {1}) ELSE K
+                   \* bare flavour: the replacement pattern carries an extra per-atom column the structure does not have (as a
+                   \* pattern loaded from CIF does); the structure's atoms get '.' in it
+                   IN IF fl = "d" THEN Double(K, {1})
+                      ELSE IF fl = "b" THEN [K EXCEPT !.xal = <<"_occ">>, !.xa = [i \in 1..Len(K.q) |-> <<"0." \o ToString(i)>>]]
+                      ELSE K
 
 FracsQ == {<<1, 1>>, <<1, 2>>, <<0, 1>>}
 FracsT == {<<1, 1>>, <<1, 2>>, <<1, 3>>, <<2, 3>>, <<1, 4>>, <<0, 1>>}
@@ -141,9 +145,21 @@ Spec == Init /\ [][Next]_vars
 
 FoundOf(q) == [a \in 1..Len(q.ord) |-> [t |-> CopyTuple(q.s, q.lay, q.ord[a]), ns |-> [i \in 1..Len(SPdef(q.s)) |-> <<0, 0, 0>>],
                                         lat |-> "ok", rot |-> 0]]
-Event(q) == [kind |-> "replace", pre |-> StructK(q.s, q.lay, q.fl), sp |-> SPK(q.s, q.fl), rp |-> RPK(q.r, q.fl),
+\* flavour "f" (fine): the parameterised request on a lattice twenty times finer (rendered at a twentieth of the scale, so
+\* the geometry is the same), with the second atom of the replacement pattern moved by ONE fine unit along x (about
+\* 0.05 A): an atom that is almost, but not, where the search pattern has it is not a common atom - it is removed and
+\* the pattern's atom inserted at its own place
+FineK(K) == [K EXCEPT !.pos = [i \in 1..Len(K.pos) |-> <<20 * K.pos[i][1], 20 * K.pos[i][2], 20 * K.pos[i][3]>>],
+                      !.cell = IF K.cell = <<>> THEN <<>> ELSE [r \in 1..3 |-> <<20 * K.cell[r][1], 20 * K.cell[r][2], 20 * K.cell[r][3]>>]]
+Nudge(K) == IF Len(K.pos) < 2 THEN K ELSE [K EXCEPT !.pos[2] = <<K.pos[2][1] + 1, K.pos[2][2], K.pos[2][3]>>]
+Event(q) == IF q.fl = "f"
+            THEN [kind |-> "replace", pre |-> FineK(StructK(q.s, q.lay, "p")), sp |-> FineK(SPK(q.s, "p")), rp |-> Nudge(FineK(RPK(q.r, "p"))),
+                  found |-> FoundOf(q), stub |-> "yes", fn |-> q.fn, fd |-> q.fd, replace_all |-> q.rall, ignore |-> q.ign,
+                  rotbound |-> 1100, fine |-> 20]
+            ELSE
+            [kind |-> "replace", pre |-> StructK(q.s, q.lay, q.fl), sp |-> SPK(q.s, q.fl), rp |-> RPK(q.r, q.fl),
              found |-> FoundOf(q), stub |-> "yes", fn |-> q.fn, fd |-> q.fd, replace_all |-> q.rall, ignore |-> q.ign,
-             rotbound |-> 1100]
+             rotbound |-> 1100, fine |-> 1]
 
 \* ---- the specified outcome, on the model --------------------------------------------------------------------
 SpecOutcome(q) ==
